@@ -619,7 +619,7 @@ theorem HasNF.resolve {d : Deriv} (hok : StOK g s cfg st) (h : NB g s cfg st) (h
   · exact Or.inr ⟨i, hi, by rw [((hok.agenda i hi).1 hf).prio_dprio]; exact Int.le_refl _⟩
   · exact Or.inl ⟨i, h.popChart i hi hf, rfl⟩
 
-theorem cover (hs : SentOK s) (hp : 0 ≤ cfg.penalty) (hok : StOK g s cfg st) (h : NB g s cfg st)
+theorem coverNB (hs : SentOK s) (hp : 0 ≤ cfg.penalty) (hok : StOK g s cfg st) (h : NB g s cfg st)
     {d : Deriv} (hd : Licensed g s cfg d) :
     (∃ o ∈ st.chart, o.d = d) ∨ (∃ a ∈ st.agenda, dprio s cfg d ≤ a.prio) := by
   induction hd with
@@ -644,7 +644,7 @@ theorem coverFin (hs : SentOK s) (hp : 0 ≤ cfg.penalty) (hok : StOK g s cfg st
     {d : Deriv} (hd : LicensedRoot g s cfg d) :
     (∃ r ∈ st.goal, r.d = d) ∨ (∃ a ∈ st.agenda, modelScore s cfg d ≤ a.prio) := by
   have hm := modelScore_le_dprio hs hd
-  rcases cover hs hp hok h hd.1 with ⟨o, ho, rfl⟩ | ⟨a, ha, hle⟩
+  rcases coverNB hs hp hok h hd.1 with ⟨o, ho, rfl⟩ | ⟨a, ha, hle⟩
   · obtain ⟨i, hi, hf, e⟩ := h.fins o ho hd
     rcases List.mem_append.1 hi with hi | hi
     · refine Or.inr ⟨i, hi, ?_⟩
